@@ -288,16 +288,36 @@ def run(repo, rep, tier):
 
     def is_src(e):
         return isinstance(e, ast.Attribute) and e.attr in LIST_ATTRS and isinstance(e.ctx, ast.Load) and not (isinstance(e.value, ast.Name) and e.value.id == 'self')
+    # inter-procedural provenance: a parsed list passed as an argument makes the callee's parameter an alias of it
+    seeds = {f: set() for f in reach}
+    seeds[oas] = {'algorithms'}
+    changed = True
+    rounds = 0
+    while changed and rounds < 8:
+        changed = False
+        rounds += 1
+        for f in reach:
+            if f._module.name in ('dheat',):
+                continue
+            d = Derived(f, is_src, extra_seeds=seeds[f])
+            for (g, site, kind) in cg.edges.get(f, []):
+                if not isinstance(site, ast.Call) or kind not in ('exact', 'dispatch') or g not in seeds:
+                    continue
+                try:
+                    b = bind_args(site, g, skip_self=(g._cls is not None and g.args.args and g.args.args[0].arg in ('self', 'cls') and not isinstance(site.func, ast.Name)))
+                except AnalysisError:
+                    continue
+                for par, a in b.items():
+                    if d.derived(a) and par not in seeds[g] and g.name != '__init__':
+                        seeds[g].add(par)
+                        changed = True
     for f in reach:
         if f._module.name in ('dheat',):
             continue
         nscan += 1
-        seeds = set()
-        if f is oas:
-            seeds = {'algorithms'}
-        d = Derived(f, is_src, extra_seeds=seeds)
+        d = Derived(f, is_src, extra_seeds=seeds[f])
         for node, desc in d.mutations():
-            rep.check('order', 'no in-place edit of a parsed name-list: %s' % func_id(f), False, node, 'parsed name-list edited in place (%s) in %s: advertised names can be dropped, reordered or duplicated' % (desc, func_id(f)))
+            rep.check('order', 'no in-place edit of a parsed name-list: %s' % func_id(f), False, node, 'parsed name-list edited in place (%s) in %s: advertised names can be dropped, reordered, duplicated or invented in every later rendering' % (desc, func_id(f)))
         # transformations applied to a parsed list on its way to a renderer
         if f in (outf, oas, bs):
             for n in walk_no_nested(f):
